@@ -26,6 +26,7 @@ def tyName : Ty → String
   | .enum _ _ => "Enum" | .pattern _ => "Pattern" | .regexp _ => "Regexp" | .coll _ => "Collection"
   | .array _ _ => "Array" | .hash _ _ _ => "Hash" | .tuple _ _ => "Tuple" | .struct _ => "Struct" | .variant _ => "Variant"
   | .optional _ => "Optional" | .notUndef _ => "NotUndef" | .typ _ => "Type" | .sensitive _ => "Sensitive"
+  | .iterator _ => "Iterator"
   | .iterable _ => "Iterable" | .object _ => "Object"
 
 def Atom.name : Atom → String
